@@ -32,8 +32,7 @@ type Evaluated struct {
 	ModelPanic int    // -1 = none
 	ModelFresh string // "ok" | "panic"
 	ClassF10b  bool
-	ClassF11   bool
-	MClassF11  bool // the MODEL's panic lies in the class of F11
+	ClassF11   bool // coverage only: the model's run visits the class of the repaired finding F11
 	SpecAdd    bool // Spec.c11AddTotalHolds on the REAL panic outcome
 	Probes     []ProbeEval
 }
@@ -72,7 +71,6 @@ func fill(e *Evaluated, answer string) error {
 	e.ContentOK = bit("contentok", "")
 	e.ClassF10b = bit("class", "F10b")
 	e.ClassF11 = bit("class", "F11")
-	e.MClassF11 = bit("mclass", "F11")
 	e.SpecAdd = bit("spec", "C11add")
 	e.ModelPanic = -1
 	if r := n.Find("run"); r != nil && len(r.Args()) == 1 {
@@ -138,7 +136,9 @@ type Verdict struct {
 
 func (v Verdict) bad() bool { return v.Kind != "ok" && v.Kind != "known" }
 
-// Judge applies the rules of DESIGN §5/§6 to one history.
+// Judge applies the rules of DESIGN §5/§6 to one history. The only class that excuses a failing
+// case is the open finding F10b; the class of F11 (repaired by 093fa53) is measured, never excused:
+// a panic of Add or Remove among WebServices with pairwise different root paths is a violation.
 func Judge(e *Evaluated) Verdict {
 	if !e.ContentOK {
 		return Verdict{Kind: "machinery", Probe: -1, What: "the content the harness rebuilt the fresh container from is not the model's content"}
@@ -152,38 +152,28 @@ func Judge(e *Evaluated) Verdict {
 		if res.ModelPanic < 0 {
 			return Verdict{Kind: "spec-add", Probe: -1, What: fmt.Sprintf("%s on a WebService outside the container panicked: %s", op.Kind, res.PanicVal)}
 		}
-		if (op.Kind == "add" || op.Kind == "remove") && e.ClassF11 != PrefixesCollide(res.RootsAt) {
-			return Verdict{Kind: "machinery", Probe: -1, What: "Go and Lean classifiers of F11 disagree"}
-		}
-		agrees := e.ModelPanic == res.ModelPanic
 		if !e.SpecAdd {
-			if e.ClassF11 && agrees {
-				return Verdict{Kind: "known", Known: "F11", Probe: -1}
-			}
 			return Verdict{Kind: "spec-add", Probe: -1, What: fmt.Sprintf("operation %d (%s) panicked or exited: %s", res.PanicIdx, op.Kind, res.PanicVal)}
 		}
-		if !agrees {
+		if e.ModelPanic != res.ModelPanic {
 			return Verdict{Kind: "disagree-panic", Probe: -1, What: fmt.Sprintf("operation %d (%s) panicked (%s), the model says %s", res.PanicIdx, op.Kind, res.PanicVal, e.ModelRun)}
+		}
+		if e.ClassF11 != res.VisitsF11 {
+			return Verdict{Kind: "machinery", Probe: -1, What: "Go and Lean classifiers of the (repaired) class F11 disagree"}
 		}
 		return Verdict{Kind: "ok", Probe: -1}
 	}
-	repaired := false
 	if e.ModelPanic >= 0 {
-		if !e.MClassF11 {
-			return Verdict{Kind: "disagree-panic", Probe: -1, What: "no operation panicked, the model says " + e.ModelRun}
-		}
-		// inside the class of F11 the model panics and the real code does not: the defect was repaired
-		// there; the theorem is silent, the predicate must still hold on every probe (DESIGN §5)
-		repaired = true
+		return Verdict{Kind: "disagree-panic", Probe: -1, What: "no operation panicked, the model says " + e.ModelRun}
+	}
+	if e.ClassF11 != res.VisitsF11 {
+		return Verdict{Kind: "machinery", Probe: -1, What: "Go and Lean classifiers of the (repaired) class F11 disagree"}
 	}
 	known := Verdict{Kind: "ok", Probe: -1}
-	if repaired {
-		known.What = "differs-inside-known-class:F11"
-	}
 	var disagree *Verdict
 	for i, p := range e.Probes {
 		agrees := p.Model == res.Answers[i]
-		if p.Spec && !agrees && (repaired || e.ClassF10b) {
+		if p.Spec && !agrees && e.ClassF10b {
 			// a repaired defect legitimately differs from the model inside its class, provided the predicate holds
 			if known.Kind == "ok" && known.What == "" {
 				known.What = "differs-inside-known-class:F10b"
@@ -191,7 +181,7 @@ func Judge(e *Evaluated) Verdict {
 			continue
 		}
 		if !p.Spec {
-			if e.ClassF10b && (agrees || repaired) {
+			if e.ClassF10b && agrees {
 				if known.Kind == "ok" {
 					known = Verdict{Kind: "known", Known: "F10b", Probe: i}
 				}
@@ -395,6 +385,14 @@ func account(run *report.Run, stream string, e *Evaluated, v Verdict) {
 			run.Count(stream + ":fresh-container-panics")
 		}
 	}
+	if e.Res.VisitsF11 {
+		// the class of the repaired finding F11: services with different roots want one ServeMux pattern
+		run.Count(stream + ":visits-former-F11-class")
+		if e.Res.PanicIdx < 0 {
+			run.Count(stream + ":visits-former-F11-class:history-completes")
+		}
+		run.Extra["operations_inside_former_F11_class"] = asInt(run.Extra["operations_inside_former_F11_class"]) + e.Res.SharedOps
+	}
 	nontrivial := false
 	for i, p := range e.Probes {
 		run.Count(stream + ":probe:" + p.Tag)
@@ -491,11 +489,11 @@ func searchNear(h *History, seed uint64) (*Evaluated, Verdict) {
 	return nil, Verdict{}
 }
 
-// ---- witnesses of the open findings ----
+// ---- witness of the open finding, regressions of the repaired one ----
 
-// WitnessFile is the layout of replays/F10b.json and replays/F11.json: a replay file (DESIGN A.2, same
-// shape as the files report.Run writes, so that `bin/check C11 --replay` reads it) plus the history
-// in structured form, which is what the check re-runs on the real code.
+// WitnessFile is the layout of replays/F10b.json: a replay file (DESIGN A.2, same shape as the files
+// report.Run writes, so that `bin/check C11 --replay` reads it) plus the history in structured
+// form, which is what the check re-runs on the real code.
 type WitnessFile struct {
 	Property  string           `json:"property"`
 	Finding   string           `json:"finding"`
@@ -504,8 +502,8 @@ type WitnessFile struct {
 	Violation report.Violation `json:"violation"`
 }
 
-// BuiltinWitnesses are the minimal histories of the two open findings (the same as the `decide`d
-// theorems C11_F10b_witness and C11_F11_witness of Props/C11.lean).
+// BuiltinWitnesses are the minimal histories of the open findings (the same as the `decide`d
+// theorem C11_F10b_witness of Props/C11.lean).
 func BuiltinWitnesses() map[string]*History {
 	get := routing.RouteDecl{ID: 1, Method: "GET", Rel: "/x"}
 	return map[string]*History{
@@ -513,12 +511,161 @@ func BuiltinWitnesses() map[string]*History {
 			Pool:   []SvcSpec{{ID: 1, Root: "/a", Dynamic: true, Routes: []routing.RouteDecl{get}}},
 			Ops:    []Op{{Kind: "handle", Pattern: "/health", HID: 7}, {Kind: "add", Svc: 0}, {Kind: "remove", Svc: 0}},
 			Probes: []routing.Req{{Method: "GET", Path: "/health"}}},
-		"F11": {Router: "curly",
-			Pool: []SvcSpec{{ID: 1, Root: "/users", Dynamic: true, Routes: []routing.RouteDecl{get}},
-				{ID: 2, Root: "/users/{id}/b", Dynamic: true, Routes: []routing.RouteDecl{{ID: 2, Method: "GET", Rel: "/x"}}}},
-			Ops:    []Op{{Kind: "add", Svc: 0}, {Kind: "add", Svc: 1}},
-			Probes: []routing.Req{{Method: "GET", Path: "/users/x"}}},
 	}
+}
+
+// Regression is a former witness of a repaired finding (or a neighbour of it): a fixed history that
+// must hold on the real code on every run. Want lists, per probe index, the canonical answer the
+// history-built container must give through ServeHTTP (beyond agreeing with the fresh container
+// and with the model).
+type Regression struct {
+	Name string
+	H    *History
+	Want map[int]string
+}
+
+func sel(svc, route int, kv ...string) string {
+	n := sx.K("sel", sx.N(svc), sx.N(route))
+	for i := 0; i+1 < len(kv); i += 2 {
+		n.List = append(n.List, sx.K("p", sx.H(kv[i]), sx.H(kv[i+1])))
+	}
+	return n.String()
+}
+
+// RegressionsF11 are the former witnesses of finding F11 (Add panicked with "multiple registrations"
+// for distinct root paths that share their fixed prefix), repaired by 093fa53, the same as the
+// `decide`d theorems C11_F11_fixed / C11_F11_remove_fixed of Props/C11.lean, plus neighbours: both
+// orders, both routers, Remove of one of the sharing services (the shared patterns must stay), the
+// shielded pair uncovered by Remove("/"), a plain handler next to the shared prefix.
+func RegressionsF11() []Regression {
+	x := func(id int) []routing.RouteDecl { return []routing.RouteDecl{{ID: id, Method: "GET", Rel: "/x"}} }
+	at := func(id int) []routing.RouteDecl { return []routing.RouteDecl{{ID: id, Method: "GET", Rel: ""}} }
+	users := SvcSpec{ID: 1, Root: "/users", Dynamic: true, Routes: x(1)}
+	usersB := SvcSpec{ID: 2, Root: "/users/{id}/b", Dynamic: true, Routes: at(2)}
+	a := SvcSpec{ID: 1, Root: "/a", Dynamic: true, Routes: x(1)}
+	aSlash := SvcSpec{ID: 2, Root: "/a/", Dynamic: true, Routes: x(2)}
+	aID := SvcSpec{ID: 3, Root: "/a/{id}", Dynamic: true, Routes: x(3)}
+	root := SvcSpec{ID: 9, Root: "/", Dynamic: true, Routes: []routing.RouteDecl{{ID: 9, Method: "GET", Rel: "/zzz"}}}
+	add := func(i int) Op { return Op{Kind: "add", Svc: i} }
+	rm := func(i int) Op { return Op{Kind: "remove", Svc: i} }
+	get := func(ps ...string) []routing.Req {
+		var out []routing.Req
+		for _, p := range ps {
+			out = append(out, routing.Req{Method: "GET", Path: p})
+		}
+		return out
+	}
+	usersProbes := get("/users/7/b", "/users/x", "/users", "/users/", "/users/7/b/", "/users/7", "/usersx", "/zzz")
+	aProbes := get("/a/x", "/a", "/a/", "/a/5/x", "/ab", "/a//x")
+	var out []Regression
+	for _, router := range []string{"curly", "jsr"} {
+		out = append(out,
+			Regression{Name: router + ": Add(/users) Add(/users/{id}/b)",
+				H:    &History{Router: router, Pool: []SvcSpec{users, usersB}, Ops: []Op{add(0), add(1)}, Probes: usersProbes},
+				Want: map[int]string{0: sel(2, 2, "id", "7"), 1: sel(1, 1)}},
+			Regression{Name: router + ": Add(/users/{id}/b) Add(/users)",
+				H:    &History{Router: router, Pool: []SvcSpec{users, usersB}, Ops: []Op{add(1), add(0)}, Probes: usersProbes},
+				Want: map[int]string{0: sel(2, 2, "id", "7"), 1: sel(1, 1)}},
+			Regression{Name: router + ": Add(/) Add(/users) Add(/users/{id}/b) Remove(/)",
+				H:    &History{Router: router, Pool: []SvcSpec{users, usersB, root}, Ops: []Op{add(2), add(0), add(1), rm(2)}, Probes: usersProbes},
+				Want: map[int]string{0: sel(2, 2, "id", "7"), 1: sel(1, 1)}},
+			Regression{Name: router + ": Add(/users) Add(/users/{id}/b) Remove(/users)",
+				H:    &History{Router: router, Pool: []SvcSpec{users, usersB}, Ops: []Op{add(0), add(1), rm(0)}, Probes: usersProbes},
+				Want: map[int]string{0: sel(2, 2, "id", "7")}},
+			Regression{Name: router + ": Add(/users) Add(/users/{id}/b) Remove(/users/{id}/b)",
+				H:    &History{Router: router, Pool: []SvcSpec{users, usersB}, Ops: []Op{add(0), add(1), rm(1)}, Probes: usersProbes},
+				Want: map[int]string{1: sel(1, 1)}},
+			Regression{Name: router + ": Add(/a) Add(/a/{id}) Add(/a/) Remove(/a) Add(/a)",
+				H:    &History{Router: router, Pool: []SvcSpec{a, aSlash, aID}, Ops: []Op{add(0), add(2), add(1), rm(0), add(0)}, Probes: aProbes},
+				Want: map[int]string{3: sel(3, 3, "id", "5")}},
+			Regression{Name: router + ": Handle(/a/plain) Add(/a) Add(/a/{id}) Add(/a/)",
+				H: &History{Router: router, Pool: []SvcSpec{a, aSlash, aID},
+					Ops:    []Op{{Kind: "handle", Pattern: "/a/plain", HID: 7}, add(0), add(2), add(1)},
+					Probes: append(get("/a/plain"), aProbes...)},
+				Want: map[int]string{0: sx.K("plain", sx.N(7)).String(), 4: sel(3, 3, "id", "5")}},
+		)
+	}
+	out = append(out,
+		Regression{Name: "curly: Add(/a) Add(/a/)",
+			H:    &History{Router: "curly", Pool: []SvcSpec{a, aSlash}, Ops: []Op{add(0), add(1)}, Probes: aProbes},
+			Want: map[int]string{0: sel(1, 1)}},
+		Regression{Name: "curly: Add(/a/) Add(/a)",
+			H:    &History{Router: "curly", Pool: []SvcSpec{a, aSlash}, Ops: []Op{add(1), add(0)}, Probes: aProbes},
+			Want: map[int]string{0: sel(2, 2)}},
+	)
+	return out
+}
+
+// checkRegression runs one regression on both sides; why == "" when it holds.
+func checkRegression(g Regression) (e *Evaluated, v Verdict, why string, err error) {
+	e, v, err = one(g.H)
+	if err != nil {
+		return nil, v, "", err
+	}
+	switch {
+	case v.Kind != "ok" || v.What != "":
+		why = v.Kind + " " + v.What
+	case e.Res.PanicIdx >= 0:
+		why = fmt.Sprintf("operation %d panicked: %s", e.Res.PanicIdx, e.Res.PanicVal)
+	case e.Res.FreshPanic:
+		why = "the fresh container could not be built: " + e.Res.FreshVal
+	case !e.Res.VisitsF11 || !e.ClassF11:
+		why = "the history does not lie in the class of the repaired finding (classifier broken)"
+	}
+	if why == "" {
+		for i, want := range g.Want {
+			for _, k := range []int{2, 3, 0} { // history-built ServeHTTP, fresh ServeHTTP, Dispatch (the mux aside)
+				got := e.Res.Answers[i][k]
+				if k == 0 && strings.HasPrefix(want, "(plain") {
+					continue // Dispatch never reaches a plain handler
+				}
+				if got != want {
+					p := g.H.Probes[i]
+					why = fmt.Sprintf("%s %q: %s answers %s, expected %s", p.Method, p.Path, entryNames[k], Pretty(got), Pretty(want))
+					v.Probe = i
+				}
+			}
+		}
+	}
+	return e, v, why, nil
+}
+
+// ReplayRegressions runs the former witnesses of the repaired finding F11: each must hold; a
+// failure is a VIOLATION whose replay is that history.
+func ReplayRegressions(run *report.Run) error {
+	for _, g := range RegressionsF11() {
+		e, v, why, err := checkRegression(g)
+		if err != nil {
+			return err
+		}
+		if v.Kind == "machinery" {
+			return fmt.Errorf("regression %s: %s\n%s", g.Name, v.What, e.Line)
+		}
+		run.Evaluations++
+		run.TracesValidated++
+		run.Distinct["regression|"+e.Line] = true
+		if why == "" {
+			run.Count("regression:F11-fixed:holds")
+			continue
+		}
+		run.Count("regression:F11-fixed:FAILS")
+		v.What = "regression of the repaired finding F11 (093fa53, addHandler registers only the ServeMux patterns no earlier WebService mapped): " + g.Name + ": " + why
+		kind := "counterexample"
+		if strings.HasPrefix(v.Kind, "disagree") {
+			kind = "correspondence"
+			// the model is proved to satisfy the property here (C11_F11_fixed): is the predicate false on the real answers?
+			for i, p := range e.Probes {
+				if !p.Spec {
+					kind, v.Probe = "counterexample", i
+					break
+				}
+			}
+		}
+		viol := violationOf(kind, e, v)
+		viol.Theorem = "Restful.Props.C11_F11_fixed"
+		run.AddViolation(viol)
+	}
+	return nil
 }
 
 // ReplayWitnesses runs the witness of every open C11 finding on the real code: still failing in the
@@ -563,9 +710,32 @@ func ReplayWitnesses(run *report.Run) error {
 	return nil
 }
 
-// WriteWitnesses (re)creates replays/<id>.json from the built-in histories.
+// RegressionFile is the layout of replays/F11.json: the committed record of the regressions of the
+// repaired finding F11 (same outer shape as a replay file: `bin/check C11 --replay` re-runs the
+// lines on the driver).
+type RegressionFile struct {
+	Property  string        `json:"property"`
+	Finding   string        `json:"finding"`
+	Status    string        `json:"status"`
+	Theorem   string        `json:"theorem"`
+	Expect    string        `json:"expect"`
+	Histories []*History    `json:"histories"`
+	Violation regressionRec `json:"violation"`
+}
+
+type regressionRec struct {
+	Kind  string        `json:"kind"`
+	What  string        `json:"what"`
+	Case  []string      `json:"case"`
+	Human []interface{} `json:"human"`
+	Model string        `json:"model"`
+	Real  string        `json:"real"`
+}
+
+// WriteWitnesses (re)creates replays/F10b.json from the built-in history and replays/F11.json, the
+// regression record, from RegressionsF11 (every regression must hold when the record is written).
 func WriteWitnesses() error {
-	th := map[string]string{"F10b": "C11_F10b_witness", "F11": "C11_F11_witness"}
+	th := map[string]string{"F10b": "C11_F10b_witness"}
 	for id, h := range BuiltinWitnesses() {
 		e, v, err := one(h)
 		if err != nil {
@@ -585,5 +755,36 @@ func WriteWitnesses() error {
 			return err
 		}
 	}
-	return nil
+	rf := RegressionFile{Property: "C11", Finding: "F11", Status: "fixed 093fa53", Theorem: "Restful.Props.C11_F11_fixed, Restful.Props.C11_F11_remove_fixed",
+		Expect: "PASS: every line carries the answers the real code gives today: no operation panics, (spec C11add 1), every probe (spec C11 1) and equal to the model's answers; the check re-executes every history on the real code on every run and reports a VIOLATION with that history if it does not hold. Before the repair the second Add (resp. the Remove) of each history panicked with 'http: multiple registrations'",
+		Violation: regressionRec{Kind: "regression",
+			What: "former witnesses of F11 (Add panicked with 'multiple registrations' for distinct root paths that share their fixed prefix) and neighbours, repaired by 093fa53; kept as regressions that must pass"}}
+	for gi, g := range RegressionsF11() {
+		e, _, why, err := checkRegression(g)
+		if err != nil {
+			return err
+		}
+		if why != "" {
+			return fmt.Errorf("regression %s fails on the real code: %s", g.Name, why)
+		}
+		e.Line = Line(gi, g.H, e.Res)
+		e.Answer = strings.Replace(e.Answer, "(out 0 ", fmt.Sprintf("(out %d ", gi), 1)
+		hu := g.H.Human()
+		hu["regression"] = g.Name
+		pr := []string{}
+		for i := range e.Probes {
+			pr = append(pr, describeProbe(e, i))
+		}
+		hu["answers"] = pr
+		rf.Histories = append(rf.Histories, g.H)
+		rf.Violation.Case = append(rf.Violation.Case, e.Line)
+		rf.Violation.Human = append(rf.Violation.Human, hu)
+		if rf.Violation.Model != "" {
+			rf.Violation.Model += "\n"
+		}
+		rf.Violation.Model += e.Answer
+	}
+	rf.Violation.Real = "no operation panics; every probe is answered alike by the history-built and the fresh container, through Dispatch and ServeHTTP (the answers are inside the lines and under human[i].answers)"
+	b, _ := json.MarshalIndent(rf, "", " ")
+	return os.WriteFile(filepath.Join(report.Root, "replays", "F11.json"), append(b, '\n'), 0o644)
 }
